@@ -8,7 +8,8 @@
    bytes - it is the MTI, the bitmap and exactly the data elements whose bit is set in the unpacked bitmap
    (C14_set_adds, C14_unset_removes, C14_unpack_set; fixed bitmaps: C14_bitmap_is_getfields_fixed); what Unpack leaves
    below the set is C10. Message.Marshal of a struct over the MTI and primitive data elements adds exactly the ids of
-   its non-zero indexed fields (C14_marshal_set). Unsetting a subfield path of a composite (any depth): nothing at the path is
+   its non-zero indexed fields (C14_marshal_set); for nested structs the set at every depth is C14_nested_marshal_set /
+   C14_message_marshal_set_nested at the end of this file. Unsetting a subfield path of a composite (any depth): nothing at the path is
    populated afterwards, the object there is as new - so nothing below it can come back -, and every path that does not
    pass through it is populated exactly as before (C14_unset_path). UnmarshalJSON adds exactly the keys of the accepted document, for messages and for composites at
    any depth (C14_json_set). Over histories (C14_history_no_resurrection): after any sequence of the state-changing
@@ -127,3 +128,47 @@ Theorem C14_unmarshal_reads_set : forall S ma mb (l : list row),
   m_unmarshal_fields S mb l = m_unmarshal_fields S ma l.
 Proof. exact gunmarshal_congr. Qed.
 Print Assumptions C14_unmarshal_reads_set.
+
+(* the populated set of nested Marshal. Composite.Marshal of a struct value of the kind C11_nested_roundtrip speaks about
+   (vok n) into a new composite leaves, at every depth, exactly the tags of the struct's non-zero tagged fields populated
+   (pop_ok: each populated subfield is in turn such an object for the field's value, every other subfield is as in a new
+   composite - nothing else becomes populated); Message.Marshal of a struct whose indexed fields name primitive or
+   composite data elements adds exactly the ids of its non-zero indexed fields and leaves every other element as it was *)
+From Iso Require Import Model.Padding Model.Encoding Model.Prefix Proofs.MarshalProofs Proofs.MarshalNestedSet.
+From Coq Require Import Lia.
+Theorem C14_nested_marshal_set : forall n s t v, vok n s t v ->
+  exists st, marshal_into n s (fresh s) t v = Ok st /\ pop_ok n s t v st.
+Proof. exact nested_marshal_set. Qed.
+Print Assumptions C14_nested_marshal_set.
+
+Theorem C14_message_marshal_set_nested : forall S (l : list row) m, Forall (grow_ok S m) l -> NoDup (map rid (filter indexed l)) ->
+  exists m', m_marshal_fields S m l = (m', Ok tt) /\
+    (forall id, zmem id (m_present m') = zmem id (m_present m) || existsb (fun r => live r && (rid r =? id)) l) /\
+    (forall id, existsb (fun r => live r && (rid r =? id)) l = false -> get_state m' id = get_state m id).
+Proof. exact message_marshal_set_nested. Qed.
+Print Assumptions C14_message_marshal_set_nested.
+
+(* the hypotheses are satisfiable (the struct of C11_ex_nested): A and N are populated, the untagged and the zero field are not *)
+Definition cn14 : fspec :=
+  FComp (PVar PfASCII 2) 99 (CTag {| tg_len := 1; tg_enc := Some EncASCII; tg_pad := PadNone; tg_sort := SortByInt; tg_skip := false; tg_prefunk := None |})
+        [([x31], FPrim {| ps_kind := KString; ps_enc := EncASCII; ps_pref := PVar PfASCII 1; ps_len := 5; ps_pad := PadNone; ps_packer := PkDefault |});
+         ([x32], FPrim {| ps_kind := KNumeric; ps_enc := EncASCII; ps_pref := PVar PfASCII 1; ps_len := 5; ps_pad := PadNone; ps_packer := PkDefault |});
+         ([x33], FPrim {| ps_kind := KString; ps_enc := EncASCII; ps_pref := PVar PfASCII 1; ps_len := 5; ps_pad := PadNone; ps_packer := PkDefault |})].
+Definition tn14 : gty := TPtr (TStruct [(GDecl [x31] [] [x41], TStr); (GDecl [x32] [] [x4e], TInt64); (GDecl [] [] [x53], TStr); (GDecl [x33] [] [x5a], TStr)]).
+Definition vn14 : gval := VPtr (Some (VStruct [VStr [x61; x62]; VInt64 7; VStr [x78]; VStr []])).
+Example C14_ex_nested_set : (vok 2 cn14 tn14 vn14) /\
+  (exists pset sts, marshal_into 2 cn14 (fresh cn14) tn14 vn14 = Ok (SComp pset sts) /\ pop_ok 2 cn14 tn14 vn14 (SComp pset sts) /\
+     bmem [x31] pset = true /\ bmem [x32] pset = true /\ bmem [x33] pset = false).
+Proof.
+  assert (Hv : vok 2 cn14 tn14 vn14).
+  { cbn [vok cn14]. split; [repeat constructor; cbn; intuition discriminate|]. eexists _, _. split; [reflexivity|]. split; [reflexivity|]. split; [reflexivity|].
+    split; [vm_compute; repeat constructor; cbn; intuition discriminate|]. cbn [zip_decls].
+    apply Forall_cons; [|apply Forall_cons; [|apply Forall_cons; [|apply Forall_cons; [|apply Forall_nil]]]].
+    - right. split; [reflexivity|]. eexists. split; [reflexivity|]. right. split; [reflexivity|]. eexists. apply c_s_str. discriminate.
+    - right. split; [reflexivity|]. eexists. split; [reflexivity|]. right. split; [reflexivity|]. eexists. apply c_n_int64. unfold max_int. lia.
+    - left. reflexivity.
+    - right. split; [reflexivity|]. eexists. split; [reflexivity|]. left. split; reflexivity. }
+  split; [exact Hv|]. destruct (nested_marshal_set 2 cn14 tn14 vn14 Hv) as (st & Hm & Hp).
+  assert (E : marshal_into 2 cn14 (fresh cn14) tn14 vn14 = marshal_into 2 cn14 (fresh cn14) tn14 vn14) by reflexivity.
+  rewrite Hm in E at 1. vm_compute in E. inversion E; subst st. eexists _, _. split; [reflexivity|]. split; [exact Hp|]. vm_compute. repeat split.
+Qed.
